@@ -370,14 +370,21 @@ func (r *Run) finish(outDir string) int {
 	}
 	kf := loadKnownFindings(filepath.Join(r.verif, "known-findings.txt"))
 	sort.Slice(r.obls, func(i, j int) bool { return r.obls[i].Name < r.obls[j].Name })
-	// vacuity: per function, the precondition must be satisfiable and at least one return reachable
+	// vacuity: per function, the precondition must be satisfiable, at least one return reachable and, per
+	// loop, the end of the body reachable on at least one of the covered paths
 	retOK := map[string]bool{}
 	retSeen := map[string]bool{}
+	coverGroup := func(o *Obligation) string {
+		if strings.HasPrefix(o.Clause, "loop ") {
+			return o.Func + "|" + strings.SplitN(o.Clause, " body", 2)[0]
+		}
+		return o.Func
+	}
 	for _, o := range r.obls {
-		if o.Cover && strings.HasPrefix(o.Clause, "return") {
-			retSeen[o.Func] = true
+		if o.Cover && (strings.HasPrefix(o.Clause, "return") || strings.HasPrefix(o.Clause, "loop ")) {
+			retSeen[coverGroup(o)] = true
 			if o.ok() {
-				retOK[o.Func] = true
+				retOK[coverGroup(o)] = true
 			}
 		}
 	}
@@ -391,14 +398,15 @@ func (r *Run) finish(outDir string) int {
 		if o.ok() {
 			continue
 		}
-		if o.Cover && strings.HasPrefix(o.Clause, "return") {
-			if retOK[o.Func] {
+		if o.Cover && (strings.HasPrefix(o.Clause, "return") || strings.HasPrefix(o.Clause, "loop ")) {
+			g := coverGroup(o)
+			if retOK[g] {
 				r.deadReturns = append(r.deadReturns, o.Name)
 				continue
 			}
-			if retSeen[o.Func] {
-				// report the function once
-				retSeen[o.Func] = false
+			if retSeen[g] {
+				// report the function (or loop) once
+				retSeen[g] = false
 			} else {
 				continue
 			}
